@@ -376,28 +376,59 @@ func seqOp[E comparable](rng *vhlib.Rng, d *dom[E], c *seqInst[E], insBias int) 
 
 func runSeq[E comparable](w *vhlib.Writer, rng *vhlib.Rng, d *dom[E], k seqKind[E]) {
 	capn := 1 + rng.Intn(5)
-	label := k.name + "[" + d.tname + "]"
-	var hist []string
 	src := k.mk(capn)
-	var panicked bool
-	var pv interface{}
 	// source: arbitrary operation sequence, so that the internal layout varies
 	nops := rng.Intn(14)
 	if k.ring && rng.Bool() {
 		nops = capn + rng.Intn(2*capn+2) // wrap around
 	}
-	panicked, pv = vhlib.Recover(func() {
+	hist, ok := buildSeq(rng, d, src, nops, 7)
+	if !ok {
+		return // a panic while building the source is not a JSON matter (other properties own it): skip the case
+	}
+	roundTripSeq(w, rng, d, k, capn, src, k.name+"["+d.tname+"]", hist)
+}
+
+func buildSeq[E comparable](rng *vhlib.Rng, d *dom[E], c *seqInst[E], nops, insBias int) (hist []string, ok bool) {
+	panicked, _ := vhlib.Recover(func() {
 		for i := 0; i < nops; i++ {
-			_, _, h, call := seqOp(rng, d, src, 7)
+			_, _, h, call := seqOp(rng, d, c, insBias)
 			hist = append(hist, h)
 			call()
 		}
 	})
-	if panicked {
-		// a panic while building the source is not a JSON matter (other properties own it): skip the case
-		_ = pv
+	return hist, !panicked
+}
+
+// A document written by one container (a ring of any capacity, or an array list) decoded into a fresh ring whose capacity is
+// smaller than, equal to or larger than the document's length: UnmarshalJSON enqueues the values one by one, so the ring must end
+// up with the last min(capacity, n) values, oldest first.
+func runRingCross[E comparable](w *vhlib.Writer, rng *vhlib.Rng, d *dom[E], ring, producer seqKind[E], mode int) {
+	pcap := 1 + rng.Intn(8)
+	src := producer.mk(pcap)
+	src.ins(d.univ[rng.Intn(len(d.univ))]) // never the nil backing slice of an unused array list (written as null)
+	hist, ok := buildSeq(rng, d, src, rng.Intn(12), 8)
+	if !ok {
 		return
 	}
+	n := len(src.values())
+	capn := n
+	switch {
+	case mode == 0 && n >= 2:
+		capn = 1 + rng.Intn(n-1) // document longer than the buffer
+	case mode == 2 || n == 0:
+		capn = n + 1 + rng.Intn(3)
+	}
+	from := producer.name
+	if producer.ring {
+		from = fmt.Sprintf("%s(cap %d)", producer.name, pcap)
+	}
+	hist = append([]string{"document written by " + from}, hist...)
+	roundTripSeq(w, rng, d, ring, capn, src, ring.name+"["+d.tname+"]<-"+producer.name, hist)
+}
+
+// marshal src, decode into a fresh container of kind k (capacity capn), run further operations on it
+func roundTripSeq[E comparable](w *vhlib.Writer, rng *vhlib.Rng, d *dom[E], k seqKind[E], capn int, src *seqInst[E], label string, hist []string) {
 	srcVals := d.list(src.values())
 	var data []byte
 	var merr error
@@ -491,7 +522,9 @@ func fromKV[K comparable, V comparable](m kvAPI[K, V]) *mapInst[K, V] {
 }
 
 func mapKinds[K comparable, V comparable](dk *dom[K], kc bcomparator.Comparator[K], vc bcomparator.Comparator[V]) []mapKind[K, V] {
-	k := func(name, disc string, mk func() *mapInst[K, V]) mapKind[K, V] { return mapKind[K, V]{name: name, disc: disc, mk: mk} }
+	k := func(name, disc string, mk func() *mapInst[K, V]) mapKind[K, V] {
+		return mapKind[K, V]{name: name, disc: disc, mk: mk}
+	}
 	ks := []mapKind[K, V]{
 		k("hashmap", "MHash", func() *mapInst[K, V] { return fromKV[K, V](hashmap.New[K, V]()) }),
 		k("hashmap.Safe", "MHash", func() *mapInst[K, V] { return fromKV[K, V](hashmap.NewSafe[K, V]()) }),
@@ -634,16 +667,30 @@ func runMap[K comparable, V comparable](w *vhlib.Writer, rng *vhlib.Rng, dk *dom
 		map[string]interface{}{"container": label, "keys": dk.desc, "values": dv.desc, "ops": hist, "json": string(data)})
 }
 
-func seqAll[E comparable](w *vhlib.Writer, rng *vhlib.Rng, mkDom func(nozero bool) *dom[E], cmp bcomparator.Comparator[E], reps int) {
-	var rings []bool
-	for _, k := range seqKinds[E](mkDom(false), cmp) {
-		rings = append(rings, k.ring)
-	}
+func seqAll[E comparable](w *vhlib.Writer, rng *vhlib.Rng, mkDom func() *dom[E], cmp bcomparator.Comparator[E], reps int) {
+	n := len(seqKinds[E](mkDom(), cmp))
 	for i := 0; i < reps; i++ {
-		for j := range rings {
-			// the circular buffer is exercised without zero-valued elements: its Dequeue mishandles them (D19, property C08)
-			d := mkDom(rings[j])
+		for j := 0; j < n; j++ {
+			d := mkDom()
 			runSeq(w, rng, d, seqKinds[E](d, cmp)[j])
+		}
+		// ring buffers fed with documents of another length (zero-valued elements included: Dequeue is repaired, 0021)
+		for mode := 0; mode < 3; mode++ {
+			for _, safe := range []bool{false, true} {
+				for _, fromList := range []bool{false, true} {
+					d := mkDom()
+					var ring, prod seqKind[E]
+					for _, k := range seqKinds[E](d, cmp) {
+						if k.ring && strings.HasSuffix(k.name, ".Safe") == safe {
+							ring = k
+						}
+						if fromList && k.name == "arraylist" || !fromList && k.name == "circularbuffer" {
+							prod = k
+						}
+					}
+					runRingCross(w, rng, d, ring, prod, mode)
+				}
+			}
 		}
 	}
 }
@@ -682,8 +729,8 @@ func main() {
 		}
 	}
 
-	seqAll(w, rng, func(nz bool) *dom[int] { return intDom(rng, usize(), nz) }, ic, reps)
-	seqAll(w, rng, func(nz bool) *dom[string] { return strDom(rng, usize(), nz) }, sc, reps)
+	seqAll(w, rng, func() *dom[int] { return intDom(rng, usize(), false) }, ic, reps)
+	seqAll(w, rng, func() *dom[string] { return strDom(rng, usize(), false) }, sc, reps)
 
 	mapAll(w, rng, func() *dom[int] { return intDom(rng, usize(), false) }, func() *dom[int] { return intDom(rng, vsize(), false) }, ic, ic, reps)
 	mapAll(w, rng, func() *dom[string] { return strDom(rng, usize(), false) }, func() *dom[string] { return strDom(rng, vsize()+2, false) }, sc, sc, reps)
@@ -693,7 +740,8 @@ func main() {
 	w.Close(o, "one case = one container (every type with MarshalJSON/UnmarshalJSON, plain and Safe, plus bslice/bmap/bcache Marshal/Unmarshal) built by a random "+
 		"operation sequence over a small universe of int or string elements/keys/values (strings with quotes, backslashes, non-ASCII, JSON-looking text, values that are "+
 		"also keys), marshalled, validated with json.Valid, parsed, decoded into a fresh container of the same type, re-marshalled, and driven by 3-8 further operations "+
-		"whose results and resulting contents are recorded; ring buffers of capacity 1-5 partially filled, full and wrapped; distinct = distinct case terms; "+
+		"whose results and resulting contents are recorded; ring buffers of capacity 1-5 partially filled, full and wrapped (zero-valued elements included), and ring "+
+		"buffers decoding documents written by a ring of another capacity or by an array list, longer than / as long as / shorter than the target capacity; distinct = distinct case terms; "+
 		"non-trivial = the source container is not empty")
 }
 
